@@ -15,7 +15,7 @@ Extraction "model.ml" conv_anchor
   ZbddVars.ztaut_chain ZbddVars.zadd_vars ZbddVars.f_powerset
   LevelSwap.level_swap LevelSwap.set_var_order_model SortOrder.sort_order SortOrder.bubble_sort
   LevelSwapC.level_swap_c LevelSwapC.set_var_order_model_c
-  BuildCanon.build_kind BuildCanon.lvl_fun BuildCanon.canonical_count BuildCanon.cfun_of BuildCanon.bool_kind_ok_b BuildCanon.canon_size_bdd BuildCanon.canon_size_bcdd
+  BuildCanon.build_kind BuildCanon.lvl_fun BuildCanon.canonical_count BuildCanon.cfun_of BuildCanon.bool_kind_ok_b BuildCanon.canon_size_bdd BuildCanon.canon_size_bcdd BuildCanon.canon_size_zbdd
   Terminals.lift_st Terminals.collect_term_survivors Terminals.collect_node_survivors Terminals.tstep Terminals.tcollect
   Terminals.minv_b Terminals.tcollect_count Terminals.tgc_count Terminals.get_outcome Terminals.tlen
   Table.mkSnap Table.mkNode Table.mkEdge Table.nlevels Table.edge_eqb.
